@@ -43,8 +43,12 @@ def MSt.addWakeup (s : MSt) (c : Comp) (w : SimTime) : Wakeups :=
 
 def MSt.step (s : MSt) : MAct → Option MSt
   | .interrupt c stamp =>
-    let s1 := { s with pend := if (alookup s.pend c).isSome then s.pend else upsert s.pend c stamp }
-    some { s1 with wake := s1.addWakeup c stamp, owed := sinsert s.owed c }
+    -- a callback that is already due but not served yet is not displaced by the interrupt
+    let when := match alookup s.wake c with
+      | some w => if w < stamp then w else stamp
+      | none => stamp
+    let s1 := { s with pend := if (alookup s.pend c).isSome then s.pend else upsert s.pend c when }
+    some { s1 with wake := s1.addWakeup c when, owed := sinsert s.owed c }
   | .output c callAt =>
     match callAt with
     | some w => some { s with wake := s.addWakeup c w }
